@@ -365,9 +365,19 @@ func (s *execSchemaObj) Resolve(f *ggql.Field, _ map[string]interface{}) (interf
 }
 
 // ---- rendering of schema and document text ----
+// queryNamed: the object type (not the query root) that carries the name "Query" in the case at hand; the
+// query root is then called T1 and a schema block names it (0: the conventional names)
+var queryNamed int
+
 func typeName(id int) string {
+	if queryNamed != 0 && id == queryNamed {
+		return "Query"
+	}
 	switch id {
 	case 1:
+		if queryNamed != 0 {
+			return "T1"
+		}
 		return "Query"
 	case 2:
 		return "Mutation"
@@ -388,6 +398,9 @@ func typeName(id int) string {
 }
 
 func typeID(name string) (int, bool) {
+	if queryNamed != 0 && name == "Query" {
+		return queryNamed, true
+	}
 	for _, id := range []int{1, 2, 3, 10, 11, 12, 13, 14} {
 		if typeName(id) == name {
 			return id, true
@@ -423,6 +436,15 @@ func argDefsText(args []sx.S) string {
 
 func schemaText(types []sx.S) string {
 	var b strings.Builder
+	if queryNamed != 0 {
+		b.WriteString("schema { query: " + typeName(1))
+		for _, t := range types {
+			if sx.Head(t) == "obj" && sx.Int(sx.List(t)[1]) == 2 {
+				b.WriteString(" mutation: " + typeName(2))
+			}
+		}
+		b.WriteString(" }\n")
+	}
 	for _, t := range types {
 		l := sx.List(t)
 		switch sx.Head(t) {
@@ -561,6 +583,12 @@ func keyID(k string) (int, bool) {
 	if k == "data" {
 		return 12, true
 	}
+	if k == "__schema" {
+		return 98, true
+	}
+	if k == "__type" {
+		return 99, true
+	}
 	return nameID(k, "f")
 }
 
@@ -575,6 +603,10 @@ func selText(b *strings.Builder, s sx.S, order *[]int) {
 		}
 		if l[3].(string) == "0" {
 			b.WriteString("__typename")
+		} else if l[3].(string) == "98" {
+			b.WriteString("__schema")
+		} else if l[3].(string) == "99" {
+			b.WriteString("__type")
 		} else {
 			b.WriteString("f" + l[3].(string))
 		}
@@ -782,6 +814,7 @@ var kindTable = []struct {
 	{regexp.MustCompile(`resolver failed`), "resolver"},
 	{regexp.MustCompile(`nth failed`), "nth"},
 	{regexp.MustCompile(`is not a field in`), "notfield"},
+	{regexp.MustCompile(`meta-field is only on the query object`), "notfield"},
 	{regexp.MustCompile(`is not a field of`), "reflect"},
 	{regexp.MustCompile(`is not a valid output leaf type`), "notleaf"},
 	{regexp.MustCompile(`is not a list type`), "notlist"},
@@ -931,6 +964,10 @@ func execSetup(secs []sx.S) (*ggql.Root, *world, sx.S) {
 			gn.fields[sx.Int(fl[1])] = b
 		}
 		w.nodes[sx.Int(nl[1])] = gn
+	}
+	queryNamed = 0
+	if qn := section(secs, "queryname"); len(qn) > 0 {
+		queryNamed = sx.Int(qn[0])
 	}
 	rt := section(secs, "root")
 	so := &execSchemaObj{w: w, q: sx.Int(rt[0]), m: sx.Int(rt[1])}
